@@ -214,6 +214,8 @@ def gen_case(rng, tier, kind=None):
                          "it": rng.randint(1, 4),
                          "rf": rng.choice([4.0, 1.0, 10.0]), "rs": rng.randint(0, 1000),
                          "ubm_kwargs": rng.random() < 0.12})
+        if rng.random() < 0.1 and n >= 4 * c:
+            case["cfg"]["ubm_kwargs"] = "kmeans_random"
     else:  # wccn / whitening
         d = rng.randint(1 if kind == "wccn" else 2, 4)
         nc = rng.randint(1, 6 if big else 3)
@@ -481,7 +483,15 @@ def _make(case, max_steps, thr):
         g.weights = A(cfg["weights"])
         return g
     if kind in ("isv", "jfa"):
-        if cfg.get("ubm_kwargs"):
+        if cfg.get("ubm_kwargs") == "kmeans_random":
+            # the UBM is trained inside fit_using_array, started by a k-means trainer that picks
+            # its initial centroids among the rows by position (seeded)
+            km = KMeansMachine(cfg["c"], init_method="random", random_state=cfg["rs"], max_iter=0,
+                               convergence_threshold=None)
+            ukw = dict(ubm=None, ubm_kwargs=dict(n_gaussians=cfg["c"], k_means_trainer=km,
+                                                 max_fitting_steps=1, convergence_threshold=None,
+                                                 random_state=cfg["rs"]))
+        elif cfg.get("ubm_kwargs"):
             # the UBM is trained inside fit_using_array (two ML steps from a given start)
             ukw = dict(ubm=None, ubm_kwargs=dict(n_gaussians=cfg["c"], ubm=_mk_ubm(cfg),
                                                  max_fitting_steps=2, convergence_threshold=None))
@@ -730,6 +740,26 @@ def run_case(case, replay=None):
     if mem_exc is None and iterative:
         with dask.config.set(scheduler="synchronous"):
             skip = _preconditions(ref, X, s, traj, thr)
+    if mem_exc is None and kind in ("isv", "jfa") and case["cfg"].get("ubm_kwargs") == "kmeans_random":
+        # the UBM's start is a hard assignment of the rows to the picked centroids: near ties,
+        # and clusters too small for a variance, are preconditions
+        from bob.learn.em import KMeansMachine
+        with dask.config.set(scheduler="synchronous"), np.errstate(all="ignore"):
+            km = KMeansMachine(case["cfg"]["c"], init_method="random",
+                               random_state=case["cfg"]["rs"], max_iter=0,
+                               convergence_threshold=None).fit(X.copy())
+        cen = np.asarray(km.centroids_, float)
+        d2 = ((X[None, :, :] - cen[:, None, :]) ** 2).sum(-1)
+        if d2.shape[0] > 1:
+            ds = np.sort(d2, axis=0)
+            if ((ds[1] - ds[0]) <= 1e-9 * s * s).any():
+                skip = "near-tie"
+        lab = d2.argmin(axis=0)
+        for j in range(d2.shape[0]):
+            Xj = X[lab == j]
+            if len(Xj) < 2 or (Xj.var(axis=0) < 1e-6 * s * s).any():
+                skip = skip or "degenerate-variance"
+        rec.probe("ubm_trained_inside_fit_using_array_from_positional_kmeans_start")
     if mem_exc is None and kind in ("wccn", "whitening"):
         w = mem_cap[0][1]
         if not np.isfinite(w).all():
